@@ -395,17 +395,17 @@ def run(ctx):
     for fl in flavours(ctx):
         ctx.unit = fl
         ctx.doc('C04.8', 'native API forwarding: each public entry point of this property reaches the implementation of the same name with its parameters in order and returns its result (sibling slips such as trylock -> lock, signal -> broadcast, swapped arguments)')
-        lib.native_forwarding(ctx, 'C04.8', fl, lambda n: n.startswith(('myth_mutex_', 'myth_mutexattr_')), floor=8)
-        rule_init_complete(ctx, fl)
+        ctx.attempt(lib.native_forwarding, ctx, 'C04.8', fl, lambda n: n.startswith(('myth_mutex_', 'myth_mutexattr_')), floor=8)
+        ctx.attempt(rule_init_complete, ctx, fl)
         v = ctx.view(NATIVE, roots=['myth_mutex_lock_body', 'myth_mutex_trylock_body', 'myth_mutex_timedlock_body',
                                     'myth_mutex_unlock_body', 'myth_block_on_queue', 'myth_mutex_clear_lock_bit'],
                      stops=(DEQ, 'myth_queue_push', 'myth_queue_pop', 'myth_yield_ex_body', 'hr_gettime',
                             'myth_timespec_gt') + ENQ, flavour=fl)
-        rule1_acquire(ctx, v)
-        rule2_block(ctx, v)
-        rule3_unlock(ctx, v)
-        rule4_nonblocking(ctx, fl)
-        rule5_ilock(ctx, fl)
+        ctx.attempt(rule1_acquire, ctx, v)
+        ctx.attempt(rule2_block, ctx, v)
+        ctx.attempt(rule3_unlock, ctx, v)
+        ctx.attempt(rule4_nonblocking, ctx, fl)
+        ctx.attempt(rule5_ilock, ctx, fl)
     from . import c16
     for wfl in ('ld', 'dl'):
         ctx.unit = wfl
@@ -415,7 +415,7 @@ def run(ctx):
                             'returns only once the mutex is converted (otherwise its lock operates on a half-built mutex and mutual '
                             'exclusion is lost on first concurrent use)'):
             v16, _ws = c16.build_view(ctx, wfl)
-            c16.rule2_static_init(ctx, wfl, v16)
+            ctx.attempt(c16.rule2_static_init, ctx, wfl, v16)
 
 
 SYNC = 'src/myth_sync_func.h'
